@@ -17,7 +17,8 @@ import ShuttleModel.Wrap.TokioLocks
 namespace ShuttleModel
 namespace Tokio
 
-/-- model the repaired `blocking_recv` (see `Mpsc.blockingRecv`); the pinned tree has the defect -/
+/-- default of the `fixedF4` flag of mpsc objects (`Mpsc.blockingRecv`): the pinned tree has the
+defect; `obj c tmpsc cap:<k> fixedF4` selects the repaired `blocking_recv` for one object -/
 def fixedF4 : Bool := false
 
 inductive TObj where
@@ -41,7 +42,7 @@ def mkObj (kind : String) (args : List String) : TObj :=
   | "tmpsc" =>
     let spec := (args[0]?).getD "unb"
     let bound : Option Nat := if spec.startsWith "cap:" then some ((((spec.drop 4).toString).toNat?).getD 1) else none
-    .mpsc (TMpsc.new bound c0)
+    .mpsc { TMpsc.new bound c0 with fixedF4 := fixedF4 || args.contains "fixedF4" }
   | "toneshot" => .oneshot {}
   | "twatch" => .watch (TWatch.new a0 (((args[1]?).bind String.toNat?).getD 1) c0)
   | "tnotify" => .notify {}
@@ -92,7 +93,7 @@ def exec (objL : String → Option (Lens U TObj)) (k : Nat) (name : String) (arg
   | some L => do
     let o ← K.getL L
     match o with
-    | .mpsc _ => Mpsc.op fixedF4 mode (mpscL L) name (num 1)
+    | .mpsc _ => Mpsc.op mode (mpscL L) name (num 1)
     | .oneshot _ => Oneshot.op mode (oneshotL L) name (num 1)
     | .watch _ => Watch.op mode (watchL L) name (num 1)
     | .notify _ => Notify.op mode (notifyL L) name (arg 1)
